@@ -15,23 +15,11 @@ ASSUME = [
     "the origin named by a session's first request is the origin of the whole session (the proxy supports one server connection; requests pipelined to another host are sent to the first: documented TODO in the source, outside the statement)",
     "headers are compared as a map lower-case name -> trimmed value (the proxy re-emits them from std::map: lower-cased, sorted, duplicates merged); `C18_rewrite` states the emitted bytes literally",
     "a listener on the default port 80 cannot exist in the simulation (ports below 1024 are refused by bind): default-port requests are checked through the address/port the proxy dials (503 vs. relay) and, literally, by the theorem",
-    "x.destroy is only issued when no run() follows or the proxy is idle (http_proxy has no destructor: callbacks of a connected proxy would run on freed memory)",
-    "fewer than 65536 bytes are outstanding without a complete request (a full buffer makes the proxy spin on zero-length reads for ever: finding F26e)",
+    "x.destroy: the object has no destructor of its own; the members' destructors abort what is outstanding and every callback ignores operation_aborted, so destroying at quiescence is safe (a completion that was already posted with success when the object is destroyed would run on freed memory: the scenarios destroy only when the event queue is empty)",
 ]
 
-TAG_OF = {
-    "F26a": "ipv6_noport",
-    "F26b": "pipelined_early",
-    "F26c": "overlap",
-    "F26d": "malformed_after_valid",
-}
-
-def tags(scn):
-    return set(l[7:].strip() for l in scn.split("\n") if l.startswith("# tag: "))
-
 def known_trigger(kf, r, fails):
-    t = TAG_OF.get(kf.get("id"))
-    return t is not None and t in tags(r["scn"])
+    return False
 
 def spec_c18(impl, scn):
     return spec.check(impl, scn)
